@@ -154,6 +154,9 @@ func suiteCMS(c *Ctx) {
 	for i := 0; i < cases; i++ {
 		redis := i%2 == 1
 		rows := uint(1 + c.rng.Intn(7))
+		if c.rng.Intn(8) == 0 {
+			rows = uint(10 + c.rng.Intn(4)) // row numbers of two decimal digits
+		}
 		cols := []uint{1, 1, 2, 3, 5, 8, 13, 64}[c.rng.Intn(8)]
 		if i%17 == 0 {
 			// a FromEstimates-sized sketch (kept small enough for Redis)
